@@ -6,7 +6,11 @@ from ..common import rng, scratch, ToolError
 
 BASES = {"plain": {"a": b"a", "ab": b"ab"},
          "nonutf8": {"a": b"n\xff\xfe", "ab": b"n\xff\xfeb"},
-         "spacey": {"a": "résumé v1".encode(), "ab": "résumé v1b".encode()}}
+         "spacey": {"a": "résumé v1".encode(), "ab": "résumé v1b".encode()},
+         # names at the length limit: with 249 bytes <name>.~N~ still fits into NAME_MAX (255), with 252 it does not (the overwrite
+         # must then fail without losing a version)
+         "long": {"a": b"L" * 249, "ab": b"L" * 249 + b"b"},
+         "toolong": {"a": b"M" * 252, "ab": b"M" * 252 + b"b"}}
 
 def conc(name, bases):
     out = bases[name[0]]
@@ -51,13 +55,24 @@ def replay_history(binary, h, hid, drv, bases, kill=False, inject=None):
                 f.write(contents.get(c))
             os.symlink(b"../other/" + conc(name, bases), os.path.join(d, conc(name, bases)))
             continue
-        with open(os.path.join(d, conc(name, bases)), "wb") as f:
-            f.write(contents.get(c))
+        try:
+            with open(os.path.join(d, conc(name, bases)), "wb") as f:
+                f.write(contents.get(c))
+        except OSError as e:
+            if e.errno == 36:          # ENAMETOOLONG: this history cannot exist with names of this length
+                _rmtree(root)
+                return []
+            raise
     recs = []
     for i, st in enumerate(h["steps"]):
         _rmtree(src); os.makedirs(src)
-        with open(os.path.join(src, conc(st["name"], bases)), "wb") as f:
-            f.write(contents.get(st["v"]))
+        try:
+            with open(os.path.join(src, conc(st["name"], bases)), "wb") as f:
+                f.write(contents.get(st["v"]))
+        except OSError as e:
+            if e.errno == 36:
+                break
+            raise
         before = listing(d, bases, contents)
         argv = ["--driver", drv, "-r", "-T", "--backup", st["mode"], "src", "d"]
         if kill and i == len(h["steps"]) - 1:
@@ -133,7 +148,7 @@ def run(ctx):
     jobs = []
     for i, h in enumerate(sample + extra):
         for drv in ("parfile", "parblock"):
-            fam = ["plain", "nonutf8", "spacey"][(i + (drv == "parblock")) % 3]
+            fam = ["plain", "nonutf8", "spacey", "long", "toolong"][(i + (drv == "parblock")) % 5]
             jobs.append((h, "h%d-%s-%s" % (i, drv, fam), drv, fam, False))
     # kill campaigns: overwrite in a backing-up mode, with and without earlier backups
     kills = [extra[0], extra[3], {"init": [[["a"], "S0"]], "steps": [{"name": ["a"], "mode": "numbered", "v": "V1"}]},
